@@ -482,7 +482,8 @@ def run(tier, seed):
     ev.sample({"call_record": payload["calls"][len(records) // 2]})
     ev.cov["rule"] = ("every history of the Session model executed on the real library (each call twice under two fillings "
                       "of numpy.empty) + seeded long random histories over all tasks, util, sonify, separation, also in "
-                      "reversed order; every call of a public function seen by the recorder (top-level or nested) is a "
+                      "reversed order, + the repository's annotation fixtures, + the repository's own test modules run under the recorder, + a pool of calls "
+                      "repeated in fresh interpreters under other PYTHONHASHSEED values; every call of a public function seen by the recorder (top-level or nested) is a "
                       "record; distinct = distinct (function, argument values); non-trivial = has at least one argument")
     ev.d["assumptions"] = ["digests are md5 of a canonical byte serialisation (dtype, shape, bytes); interned to integers",
                            "only functions whose name does not start with '_' are judged (private helpers may use scratch "
